@@ -134,14 +134,17 @@ bool Start(int argc, char **argv)
     trace.fillDefaultConfig(js_conf);
     apps.fillDefaultConfig(js_conf);
 
-    if (!args.parse(argc, argv))
+    if (!args.parse(argc, argv)) {
+        End();
         return false;
+    }
 
     std::string pid_filename;
     util::json::GetField(js_conf, "pid_file", pid_filename);
     if (!pid_filename.empty()) {
         if (!_runtime->pid_file.lock(pid_filename)) {
             std::cerr << "Warn: another process is running, exit" << std::endl;
+            End();
             return false;
         }
     }
